@@ -483,7 +483,9 @@ fn threads<W: Write>(out: &mut W, hi: usize, hist: &Value, out_path: &str) {
             let (name, s) = if which == 0 { ("/a/s1", &mut h1) } else { ("/a/s2", &mut h2) };
             let kind = rng.below(10);
             let (to, desc): (u64, String) = if kind < 5 {
-                let k = [10u64, 64, 600][rng.below(3) as usize];
+                // now and then an append far larger than any internal transfer unit: it is ONE handle
+                // operation (buffered, written back by the flush) and must change the length once
+                let k = if rng.below(8) == 0 && lens[which] < 400_000 { 330_000u64 } else { [10u64, 64, 600][rng.below(3) as usize] };
                 (lens[which] + k, format!("append{}", k))
             } else if kind < 8 {
                 let n = [0u64, 100, 4000, 4096, 5000, 9000][rng.below(6) as usize];
